@@ -68,6 +68,13 @@ class Env:
             # not part of any claim
             self._havoc = getattr(self, '_havoc', 0) + 1
             return FV(False, z3.Int(f'havoc_ratio_{self._havoc}'))
+        if callee.endswith('UnwrapValue>::unwrap_value'):
+            # rosomaxa::prelude::UnwrapValue for ControlFlow<T, T>: the payload of whichever variant
+            cf = args[0]
+            v = cf.variant()
+            if v is None:
+                v = 0 if engine.split_bool(st, cf.discr == 0) else 1
+            return cf.payload[v][0]
         return NotImplemented
 
     def subst_type(self, ty):
